@@ -249,12 +249,15 @@ def load_known() -> list[dict]:
 
 
 def write_replay(pid: str, seed: int, n: int, body: dict) -> str:
-    d = os.path.join(VERIF, "replays")
+    # seeded-change experiments (VERIF_EVIDENCE_DIR set) keep their replays apart so that concurrent runs of the same
+    # property against different trees cannot overwrite each other's files
+    alt = os.environ.get("VERIF_EVIDENCE_DIR")
+    d = os.path.join(alt, f"replays_{os.getpid()}") if alt else os.path.join(VERIF, "replays")
     os.makedirs(d, exist_ok=True)
     path = os.path.join(d, f"{pid}-{seed}-{n}.json")
     body = dict(body)
     body["property"] = pid
-    body["how_to_replay"] = f"./check {pid} --replay replays/{os.path.basename(path)}"
+    body["how_to_replay"] = f"./check {pid} --replay {os.path.relpath(path, VERIF)}"
     with open(path, "w") as f:
         json.dump(body, f, indent=1, default=str)
     return os.path.relpath(path, VERIF)
